@@ -6,19 +6,19 @@ From Coq Require Import Reals Lra Lia.
 From QV Require Import Reg ScalarR BitsP VecP C14T RegP C06T NormP C05T.
 Open Scope R_scope.
 
-Lemma rsum_ext k : forall start g h, (forall i, (start <= i)%N -> (N.to_nat i < N.to_nat start + k)%nat -> g i = h i) ->
-  rsum k start g = rsum k start h.
+Lemma nsum_ext k : forall start g h, (forall i, (start <= i)%N -> (N.to_nat i < N.to_nat start + k)%nat -> g i = h i) ->
+  nsum k start g = nsum k start h.
 Proof.
-  induction k as [|k IH]; intros start g h H; cbn [rsum]; [reflexivity|].
+  induction k as [|k IH]; intros start g h H; cbn [nsum]; [reflexivity|].
   rewrite (H start) by lia. f_equal. apply IH. intros i H1 H2. apply H; lia.
 Qed.
 
-Lemma rsum_scal k : forall start g c, rsum k start (fun i => c * g i) = c * rsum k start g.
-Proof. induction k as [|k IH]; intros start g c; cbn [rsum]; [ring|]. rewrite IH. ring. Qed.
+Lemma nsum_scal k : forall start g c, nsum k start (fun i => c * g i) = c * nsum k start g.
+Proof. induction k as [|k IH]; intros start g c; cbn [nsum]; [ring|]. rewrite IH. ring. Qed.
 
 (** weight of the cells selected by [P] *)
 Definition wsum (v : bufR) (P : N -> bool) : R :=
-  rsum (length v) 0 (fun i => if P i then n2 (get Rops v i) else 0).
+  nsum (length v) 0 (fun i => if P i then n2 (get Rops v i) else 0).
 
 Lemma sumsq_wsum (v : bufR) : sumsq v = wsum v (fun _ => true).
 Proof.
@@ -53,7 +53,7 @@ Lemma wsum_measured (v : bufR) idy m t (P : N -> bool) :
   wsum (scale_buf Rops (collapse_buf Rops v idy m) t) P =
   t * t * wsum v (fun i => agrees m (N.land idy m) i && P i)%bool.
 Proof.
-  unfold wsum. rewrite scale_length, collapse_length, <- rsum_scal. apply rsum_ext. intros i _ _.
+  unfold wsum. rewrite scale_length, collapse_length, <- nsum_scal. apply nsum_ext. intros i _ _.
   rewrite scale_get, collapse_get, collapse_cond.
   destruct (agrees m (N.land idy m) i), (P i); cbn [negb andb]; rewrite ?n2_cscale, ?n2_c0; ring.
 Qed.
@@ -82,7 +82,7 @@ Proof.
   rewrite <- Hm in Hp. cbn [reg_collapse q_psi] in Hp.
   set (v := q_psi r) in *.
   assert (Wa : sumsq (collapse_buf Rops v drawn A') = wsum v (agrees A' a)).
-  { rewrite sumsq_wsum. unfold wsum. rewrite collapse_length. apply rsum_ext. intros i _ _.
+  { rewrite sumsq_wsum. unfold wsum. rewrite collapse_length. apply nsum_ext. intros i _ _.
     rewrite collapse_get, collapse_cond. fold a. destruct (agrees A' a i); cbn [negb]; [reflexivity|apply n2_c0]. }
   assert (Wpos : 0 < wsum v (agrees A' a)).
   { rewrite <- Wa. unfold norm, reg_absolute in Hthr. rewrite norm2_buf_sumsq in Hthr. cbn [reg_collapse q_psi] in Hthr. fold v in Hthr.
@@ -90,7 +90,7 @@ Proof.
     rewrite sqrt_neg_0 in Hthr by exact L. unfold E15 in Hthr.
     assert (0 < / 10 ^ 15) by (apply Rinv_0_lt_compat; lra). lra. }
   assert (Tot : sumsq (q_psi r') = t * t * wsum v (agrees A' a)).
-  { rewrite Hp, sumsq_wsum, wsum_measured. f_equal. apply rsum_ext. intros i _ _. fold a.
+  { rewrite Hp, sumsq_wsum, wsum_measured. f_equal. apply nsum_ext. intros i _ _. fold a.
     rewrite andb_true_r. reflexivity. }
   assert (Tpos : t * t <> 0) by nra.
   split; [exact Wpos|]. split.
@@ -98,7 +98,7 @@ Proof.
   - unfold born. rewrite Tot, Hp, wsum_measured. fold a.
     replace (wsum v (fun i => agrees A' a i && agrees A' a i)%bool) with (wsum v (agrees A' a)).
     + field. split; lra.
-    + apply rsum_ext. intros i _ _. destruct (agrees A' a i); reflexivity.
+    + apply nsum_ext. intros i _ _. destruct (agrees A' a i); reflexivity.
 Qed.
 
 (** one measurement of both masks reads the same joint weight, in either order *)
@@ -110,7 +110,7 @@ Definition C07_order_stmt : Prop :=
 
 Lemma C07_order_proof : C07_order_stmt.
 Proof.
-  intros v A B a b D Ha Hb. split; apply rsum_ext; intros i _ _.
+  intros v A B a b D Ha Hb. split; apply nsum_ext; intros i _ _.
   - assert (E : (agrees A a i && agrees B b i)%bool = agrees (N.lor A B) (N.lor a b) i); [|rewrite E; reflexivity].
     unfold agrees.
     destruct (N.eqb_spec (N.land i A) a) as [E1|E1]; destruct (N.eqb_spec (N.land i B) b) as [E2|E2]; cbn [andb];
